@@ -35,6 +35,21 @@ CHECKS = {
              "TypeError in overloaded sets / binary operator slots).",
         technique="bounded exhaustive call-tuple enumeration + explicit-state search over ownership histories on real modules",
     ),
+    "C03": dict(
+        level="model_checking",
+        text="Exhaustive enumeration of the option lattice (quick: every option set within 2 deviations of each back-end's "
+             "default, 165 sets; thorough: all 2304 sets, 1920 accepted by the tool) x headers built from plain, nasty "
+             "(keywords, quotes, backslashes, */ in defaults, non-ASCII comments, macros of every kind, nested/template "
+             "types) and adversarial atoms, plus hash-collision libraries (colliding 24-bit signature hashes read off a "
+             "20000-function library, every colliding pair in both orders) and cross-library modules; exit 0 implies the -oc "
+             "file passes g++ against the original header, wrapper symbols (nm) and unique names are distinct identifiers, and "
+             "for the python back-ends the interrogate_module output compiles, links into one .so and imports.",
+        design="4/C03",
+        note="-spam/-refcount/-track-interpreter need the Panda3D runtime and are outside the lattice, as the property allows. "
+             "Eight open known findings (class named param0/result shadowed by generated locals; nested type of a template "
+             "instantiation printed unscoped; equal library hashes across libraries of one module).",
+        technique="bounded exhaustive program x configuration enumeration on the real tools, g++/nm/CPython oracle",
+    ),
     "C04": dict(
         level="model_checking",
         text="Exhaustive small-scope enumeration of class layouts (12 member kinds x 7 section labels; all singles, all "
@@ -112,6 +127,19 @@ CHECKS = {
         note="Where std::is_*_constructible and the new-expression differ only by destructor access either is accepted "
              "(the property does not decide); classes g++ itself rejects are filtered and counted.",
         technique="bounded exhaustive program enumeration on the real tools, g++ type-trait oracle",
+    ),
+    "C11": dict(
+        level="model_checking",
+        text="192 configurations (back-ends x naming/string/promiscuous options) x 26 atoms chosen so that every index-valued "
+             "field of every record kind is non-zero somewhere (measured per field) plus whole headers (thorough: all ordered "
+             "atom pairs): the .in file as written is parsed independently and checked for referential closure, kind-correct "
+             "references, mutual links, wrapper indices 1..n and distinct unique names; extern-C redeclarations synthesised "
+             "only from the database are compiled together with the -oc file (is_same assertions), the _in_fptrs/"
+             "_in_unique_names tables are compared with the database, and a ctypes client driven only by the database calls "
+             "the wrappers.",
+        design="4/C11",
+        note="Two open known findings (wide strings recorded as the narrow string token under -string).",
+        technique="bounded exhaustive program x configuration enumeration on the real tool, closure + g++ agreement oracle",
     ),
     "C12": dict(
         level="model_checking",
